@@ -103,7 +103,11 @@ class RemoteServer():
                 logger.info('New client: {}', cli_addr)
 
                 logger.debug('Waiting for initial context id and worker flag')
-                header = recv_msg(cli, comment='server: header')
+                try:
+                    header = recv_msg(cli, comment='server: header')
+                except ConnectionClosedError:
+                    logger.info('Client disconnected before sending a header')
+                    continue
                 if header is None:
                     if self.close_on_none:
                         logger.info('"None" received')
@@ -134,7 +138,11 @@ class RemoteServer():
                         self.children.append(child)
                 else:
                     result = True
-                    context = recv_msg(cli, comment='server: context')
+                    try:
+                        context = recv_msg(cli, comment='server: context')
+                    except ConnectionClosedError:
+                        logger.info('Client disconnected before sending a context request')
+                        continue
                     if context is None:
                         logger.info('Trying to delete context {}', ctx_id)
                         current = self.contexts.pop(ctx_id, None)
@@ -153,7 +161,10 @@ class RemoteServer():
                         else:
                             self.contexts[ctx_id] = context
 
-                    send_msg(cli, result, comment=f'server: context operation - {result}')
+                    try:
+                        send_msg(cli, result, comment=f'server: context operation - {result}')
+                    except ConnectionClosedError:
+                        logger.info('Client disconnected before receiving the result of a context operation')
         except (WorkerTerminatedError, KeyboardInterrupt):
             pass
         except Exception:
